@@ -22,6 +22,8 @@ type Clause struct {
 	Ord     int // ordinal among clauses of the same kind in the contract (1-based)
 	Label   string
 	Reached bool
+	Schema  bool // clause contributed by a schema (need not be reached in every function)
+	Assumed bool // clause from a 'trusted' block of /verif/specs: used at call sites, never an obligation
 	Cases   []Expr
 }
 
@@ -85,6 +87,9 @@ type SpecLib struct {
 	Contracts map[string]*Contract
 	Lemmas    []*Lemma
 	Insts     []*Instantiate
+	Trusted   []*Contract
+	Schemas   []*Contract
+	Immutable [][2]string
 	Assumes   []string // scan result: every assumed item, for the evidence file
 }
 
@@ -231,6 +236,48 @@ func (lib *SpecLib) parseLines(lines []rawLine, pkgPath string, isSpec bool) err
 			return fmt.Errorf("%s:%d: %s", rl.file, rl.line, fmt.Sprintf(f, a...))
 		}
 		switch {
+		case word == "trusted" && isSpec:
+			// assumed clauses about a /repo function (listed as assumptions, never proved)
+			if err := finishClause(); err != nil {
+				return err
+			}
+			lastRaw = nil
+			fields := strings.Fields(rest)
+			if len(fields) == 0 {
+				return fail("missing function name")
+			}
+			cur = &Contract{Key: fields[0], Flags: map[string]bool{"trusted-block": true}, File: rl.file, Line: rl.line, Tags: tags}
+			lib.Trusted = append(lib.Trusted, cur)
+			counts = map[string]int{}
+			lib.Assumes = append(lib.Assumes, "trusted clauses about "+fields[0])
+		case word == "schema":
+			// schema <glob over function keys>: clauses added to every matching function of the package
+			if err := finishClause(); err != nil {
+				return err
+			}
+			lastRaw = nil
+			fields := strings.Fields(rest)
+			if len(fields) == 0 {
+				return fail("missing pattern")
+			}
+			key := fields[0]
+			if pkgPath != "" {
+				key = qualifyKey(key, pkgPath)
+			}
+			cur = &Contract{Key: key, Flags: map[string]bool{}, File: rl.file, Line: rl.line, Tags: tags, PkgPath: pkgPath}
+			for _, fl := range fields[1:] {
+				cur.Flags[fl] = true
+			}
+			lib.Schemas = append(lib.Schemas, cur)
+			counts = map[string]int{}
+		case word == "immutable":
+			// immutable T.field, T.field2: fields written only when the object is built
+			if err := finishClause(); err != nil {
+				return err
+			}
+			for _, f := range splitTop(rest, ',') {
+				lib.Immutable = append(lib.Immutable, [2]string{pkgPath, f})
+			}
 		case word == "func" || word == "extern":
 			if err := finishClause(); err != nil {
 				return err
@@ -539,6 +586,25 @@ func tagOwned(tags []string, prop string) bool {
 		}
 	}
 	return false
+}
+
+// MergeTrusted attaches the trusted clauses to the contracts of the functions they
+// talk about (creating an empty contract when the function has none).
+func (lib *SpecLib) MergeTrusted() {
+	for _, t := range lib.Trusted {
+		c := lib.Contracts[t.Key]
+		if c == nil {
+			c = &Contract{Key: t.Key, Flags: map[string]bool{}, File: t.File, Line: t.Line}
+			lib.Contracts[t.Key] = c
+		}
+		for _, cl := range t.Clauses {
+			cl.Assumed = true
+			if len(cl.Tags) == 0 {
+				cl.Tags = t.Tags
+			}
+			c.Clauses = append(c.Clauses, cl)
+		}
+	}
 }
 
 // LoadAllSpecs loads /verif/specs/*.spec
